@@ -125,10 +125,14 @@ def fidelity(run, rule, db, f, site_cls, roles=None, allow_multi=False, expect_k
         run.ok(rule, inst, f.loc, '%d path(s): %s' % (len(S), S[0].fwd))
 
 
-def find_pairs(fns):
+def find_pairs(fns, roles=None):
     """group functions of one class instantiation: short -> Fn (first overload with concept arity)"""
     by = {}
     for f in fns:
+        if roles and f.short in roles:
+            if len(f.params) > max(roles[f.short]):
+                by.setdefault(f.short, f)
+            continue
         if f.short in fwd.CONCEPT:
             n = len(fwd.CONCEPT[f.short])
             if len(f.params) >= n:
